@@ -129,6 +129,9 @@ def run(tier):
                               "Legendre generating function"])
     # nothing computed for one mass ratio may be served for another: caches in the libration services are keyed completely
     from .. import memo
+    from . import c20
+    from .common import Relabel
+    c20._d_callers_mutate(Relabel(chk, {"C20.d": "C04.a-alias"}), c20._sites(), members={"position", "gamma", "cn", "linear_modes", "normal_form_transform", "linear_data"})
     memo.check_modules(chk, "C04.b-memo", [LIB, "hiten.system.libration.base", "hiten.system.libration.collinear", "hiten.system.libration.triangular", "hiten.system.base"], floor=1)
     R = Radicals()
     field = common.crtbp_field()
